@@ -1110,7 +1110,7 @@ void World::corrupt_grid(const Step& s, int ti)
     const bool compressed = kind != 4;
     auto rewrap = [&](const Bytes& p) { return compressed ? ref::zwrap(p, 6) : p; };
     unsigned mode = (unsigned)((uint64_t)arg(2) % 5);
-    const size_t cap = 1500;
+    const size_t cap = pristine.size() > 8000 ? 350 : 1500;  // large blobs: fewer, equally spread variants
     std::vector<Bytes> variants;
     auto stride = [&](size_t n) { return n <= cap ? (size_t)1 : (n + cap - 1) / cap; };
     switch (mode)
